@@ -18,12 +18,19 @@ parsers' column tables are regenerated from the source on every run (`Generated/
 
 * `fmtFixed_fits`, `coordinate_fits` — how wide a number prints; the property's coordinate domain
   (±9 999 999.9999) fits the coordinate cells (`14.4f` with a blank to spare, `14.5f`, `16.5f`).
+* `fmtFixed_width`, `parse_fmtFixed` (DESIGN §4, full strength, all `w p x`): the exact width condition of
+  `'{:w.pf}'` including the sign column, and `float` of the cell = the value rounded to `p` decimals
+  (within `10⁻ᵖ/2`, exact when `x·10ᵖ ∈ ℤ`); `cell_reads_back` / `readback_values` — *every* cell of *every*
+  line layout reads back at its nominal columns: numbers rounded to the printed decimals, integers
+  exactly, text stripped; `numeric_cell_accepts` (exact admission condition of a numeric cell) and
+  `table_cells_accept` (every numeric cell of the regenerated table has room for sign + one digit and
+  admits every `|x|` below its bound).
 
-Not proved (measured by the correspondence on every run): that the decimal text of a number parses
-back to within half a unit of the last printed digit (`float(fmtFixed q w p)`), NumPy's
-`genfromtxt`/`savetxt`, pandas' `read_csv`.
+Not proved (measured by the correspondence on every run): the double nearest to the parsed decimal
+(`float` is correctly rounded: trusted), NumPy's `genfromtxt`/`savetxt`, pandas' `read_csv`.
 -/
 import Midgard.Proofs.Writers
+import Midgard.Proofs.WriterNumbers
 
 namespace Midgard.Props.C17
 open Midgard.Text Midgard.FixedCol Midgard.WriterCells Midgard.Writers Midgard.Generated.WriterLayouts
@@ -67,6 +74,64 @@ theorem coordinate_fits (q : Rat) (hlo : -(99999999999 / 10000 : Rat) ≤ q) (hh
     fitsCell ⟨none, 14, some 5, .fix⟩ (.num q) = true ∧
     fitsCell ⟨none, 16, some 5, .fix⟩ (.num q) = true :=
   Decimal.coordinate_fits q hlo hhi
+
+/-- **`fmtFixed_width`, exact.**  Let `s` be the sign column (`1` for `x < 0`, also when the value rounds
+to `-0.00`) and `d` the point and decimals (`p + 1`; `0` for `p = 0`).  A cell `'{:w.pf}'` with room for an
+integer digit (`w > s + d`) is exactly `w` characters wide iff `|x|·10ᵖ < 10^(w − s − d + p) − 1/2`
+(otherwise it is longer: Python never truncates). -/
+theorem fmtFixed_width (x : Rat) (w p : Nat)
+    (hw : (if x < 0 then 1 else 0) + (if p = 0 then 0 else p + 1) < w) :
+    (Decimal.fmtFixed x w p).length = w ↔
+      |x| * Decimal.pow10 p < (10 : Rat) ^ (w - (if x < 0 then 1 else 0) - (if p = 0 then 0 else p + 1) + p) - 1 / 2 :=
+  Decimal.fmtFixed_width x w p hw
+
+/-- **`parse_fmtFixed`.**  `float('{:w.pf}'.format(x))` (exact) is `x` rounded to `p` decimals: within
+`10⁻ᵖ/2`, and `x` itself when `x·10ᵖ` is an integer — for all `w`, `p`, `x`, fitting or overflowing. -/
+theorem parse_fmtFixed (x : Rat) (w p : Nat) :
+    ∃ v, Decimal.parseFloat (Decimal.fmtFixed x w p) = some v ∧ |v - x| ≤ 1 / 2 / (10 : Rat) ^ p ∧
+      (∀ z : Int, x * (10 : Rat) ^ p = (z : Rat) → v = x) :=
+  Decimal.parse_fmtFixed x w p
+
+/-- **Every formatted cell reads back** (any alignment, any width, also when it overflows): see
+`Writers.ReadsBack` — a number within half a unit of its last printed digit (exactly if it has no more
+decimals), an integer exactly, `nan` as `nan`, `-0.0` as zero, clean text as itself. -/
+theorem cell_reads_back (spec : Spec) (v : Value) : ReadsBack spec v (fmtValue spec v) :=
+  readsBack_fmtValue spec v
+
+/-- **Read-back of the values of a line**, for every line layout and all values that fit their cells:
+what the reader finds in the nominal columns of each cell is the value (`ReadsBack`). -/
+theorem readback_values (cells : List Cell) (vals : List Value) (h : allFit cells vals = true) :
+    ∃ line, renderCells cells vals = some line ∧ (nominal cells).length = (cellValues cells vals).length ∧
+      ∀ p ∈ (nominal cells).zip (cellValues cells vals),
+        ReadsBack p.2.1 p.2.2 (Text.slice p.1.2.1 p.1.2.2 line) :=
+  readback_values_aux cells vals h
+
+/-- **Exact admission condition of a numeric cell** `{:w.pf}` that has room for an integer digit. -/
+theorem numeric_cell_accepts (spec : Spec) (x : Rat)
+    (hw : (if x < 0 then 1 else 0) + (if spec.prec.getD 6 = 0 then 0 else spec.prec.getD 6 + 1) < spec.width) :
+    fitsCell spec (.num x) = true ↔
+      |x| * Decimal.pow10 (spec.prec.getD 6) <
+        (10 : Rat) ^ (spec.width - (if x < 0 then 1 else 0) - (if spec.prec.getD 6 = 0 then 0 else spec.prec.getD 6 + 1)
+          + spec.prec.getD 6) - 1 / 2 :=
+  fitsCell_num_iff spec x hw
+
+/-- every numeric cell of every formatted line of the ten writers, and every numeric TIMESERIES/DATA column,
+has room for a sign, one integer digit, the point and its decimals (regenerated table) -/
+theorem numeric_cells_have_room :
+    ((rows.all fun r => (fixSpecs r.cells).all Spec.hasRoom) &&
+     (dataTypes.all fun p => p.2.ty != Ty.fix || p.2.hasRoom)) = true := by
+  decide +kernel
+
+/-- **Every numeric cell of the regenerated table admits every value below its bound** (sign column
+reserved): `|x|·10ᵖ < 10^(w − 1 − d + p) − 1/2` ⇒ the value fits the cell (and then reads back by
+`readback_values`). -/
+theorem table_cells_accept (r : Row) (hr : r ∈ rows) (sp : Spec) (hsp : sp ∈ fixSpecs r.cells) (x : Rat)
+    (h : |x| * Decimal.pow10 (sp.prec.getD 6) <
+      (10 : Rat) ^ (sp.width - 1 - (if sp.prec.getD 6 = 0 then 0 else sp.prec.getD 6 + 1) + sp.prec.getD 6) - 1 / 2) :
+    fitsCell sp (.num x) = true := by
+  have hall := numeric_cells_have_room
+  simp only [Bool.and_eq_true, List.all_eq_true] at hall
+  exact fitsCell_of_abs_lt sp x (hall.1 r hr sp hsp) h
 
 /-- the specs named in `coordinate_fits` are the ones the source has now -/
 theorem coordinate_cells_are_those :
@@ -178,6 +243,11 @@ theorem tms_overflow_witness :
 
 /-! ### non-vacuity -/
 
+example : ReadsBack ⟨none, 8, some 2, .fix⟩ (.num (-5 / 2)) "   -2.50".toList := by
+  have := cell_reads_back ⟨none, 8, some 2, .fix⟩ (.num (-5 / 2))
+  have e : fmtValue ⟨none, 8, some 2, .fix⟩ (.num (-5 / 2)) = "   -2.50".toList := by decide +kernel
+  rwa [e] at this
+
 example : allFit (rowOf "bernese_crd")
     [.int 1, .str "ADAC".toList, .str "10337M001".toList, .num (191624041921 / 100000),
      .num (-999999999999 / 100000), .num 0, .str ['A']] = true := by decide +kernel
@@ -189,6 +259,13 @@ end Midgard.Props.C17
 #print axioms Midgard.Props.C17.wider_field_reads_cell
 #print axioms Midgard.Props.C17.fmtFixed_fits
 #print axioms Midgard.Props.C17.coordinate_fits
+#print axioms Midgard.Props.C17.fmtFixed_width
+#print axioms Midgard.Props.C17.parse_fmtFixed
+#print axioms Midgard.Props.C17.cell_reads_back
+#print axioms Midgard.Props.C17.readback_values
+#print axioms Midgard.Props.C17.numeric_cell_accepts
+#print axioms Midgard.Props.C17.numeric_cells_have_room
+#print axioms Midgard.Props.C17.table_cells_accept
 #print axioms Midgard.Props.C17.coordinate_cells_are_those
 #print axioms Midgard.Props.C17.crd_writer_parser_aligned
 #print axioms Midgard.Props.C17.clu_writer_parser_aligned
